@@ -17,7 +17,7 @@ CLAIM = ("Metamorphic check on the real binary: every accepted grammar (bundled 
          "under every permutation of the statements that keeps the call variants in order, when no name is defined twice) and "
          "defn_order_irrelevant (hence, through C02's validation_is_meaning, the model of check.rs returns the same validated expression for "
          "two such grammars whenever it accepts both), and span_irrelevant_meaning. The layout half is proved on the operator ladder: layout_irrelevant (Proofs/LadderLayout.lean) — two texts of one "
-         "expression tree (literals, nonterminals, commands, juxtaposition by blanks, |, ||, [ ], postfix ..., parentheses) that differ only in the blanks, line breaks, form feeds and closed # comments standing at each position between the tokens are parsed by the model of fallback_expr into trees that differ in spans only — with span_irrelevant_meaning, into the same meaning; grammar_layout_irrelevant (Proofs/Statements.lean) — the same for whole files: two texts of one list of statements over the operator ladder that differ in the layout at the beginning of the file, after statement names, around ::= / = (and in the choice of sign), inside expressions, before ;, between statements and in the presence of the final ; parse to grammars equal up to spans; the texts this Lean printer produces for generated grammars, plainly and under 3 admissible layouts drawn from a seed, are compiled by the real binary on every run and must give byte-identical scripts. Outside that fragment (descriptions, escapes, juxtaposition inside words, redundant parentheses) the layout half is explored, not proved, so the level "
+         "expression tree (literals, nonterminals, commands, juxtaposition by blanks, |, ||, [ ], postfix ..., parentheses) that differ only in the blanks, line breaks, form feeds and closed # comments standing at each position between the tokens are parsed by the model of fallback_expr into trees that differ in spans only — with span_irrelevant_meaning, into the same meaning; grammar_layout_irrelevant (Proofs/Statements.lean) — the same for whole files: two texts of one list of statements over the operator ladder that differ in the layout at the beginning of the file, after statement names, around ::= / = (and in the choice of sign), inside expressions, before ;, between statements and in the presence of the final ; parse to grammars equal up to spans; the texts this Lean printer produces for generated grammars, plainly and under 3 admissible layouts drawn from a seed, are compiled by the real binary on every run and must give byte-identical scripts. grammar_layout_irrelevant_full (Proofs/StatementsFull.lean) extends it to expressions with escaped literals, descriptions (layout before the description), descriptions over groups and words by juxtaposition. What remains explored only: redundant parentheses, blanks inside {{{ }}}, and the step from equal trees to byte-identical scripts (the emitters are not modelled), so the level "
          "claimed for the property as a whole stays exploration.")
 NOTE = ("The order half is a theorem over the model of check.rs (tied to the library on every C02/C08/C15 run); the layout half is a theorem on whole files over the operator ladder and exploration elsewhere. Trusted: the tokeniser that decides where layout may be inserted (inserting "
         "layout where the syntax forbids it would change the meaning and raise a false alarm; it is restricted to the places listed).")
